@@ -111,9 +111,10 @@ type gtTr struct {
 	brk        []brkTarget
 	cnt        []brkTarget // where `continue` goes
 	cfg        *gtCfg
-	loopIndex  map[ast.Node]int // for / range statements of the function, numbered in source order from 1
+	loopIndex  map[ast.Node]int    // for / range statements of the function, numbered in source order from 1
+	ifaceKey   string              // sort key of the interface field last resolved by ifaceField
 	autoFuel   map[ast.Node]string // fuel measures of loops the translator itself writes (range over a string)
-	named      []string         // named results used as variables
+	named      []string            // named results used as variables
 	loopCache  map[ast.Node]*loopCache
 	inMutCall  bool
 	elemMut    bool // the function assigns elements of maps / slices: no local aliases of maps / slices
@@ -1713,6 +1714,7 @@ func (tr *gtTr) regexpMethod(c *ast.CallExpr, env *venv) (ex, bool) {
 	if !isCall || len(mc.Args) != 1 {
 		return ex{}, false
 	}
+	_ = vs
 	msel, isSel := mc.Fun.(*ast.SelectorExpr)
 	q, isId := func() (*ast.Ident, bool) {
 		if !isSel {
@@ -1743,7 +1745,8 @@ func (tr *gtTr) regexpMethod(c *ast.CallExpr, env *venv) (ex, bool) {
 		gtFail("%s.ReplaceAllString: arguments are not strings", id.Name)
 	}
 	pn := "re_" + id.Name + "_ReplaceAllString"
-	tr.fn.addAbstract(gtAbstract{name: pn, typ: "bstr -> bstr -> bstr"})
+	pos := tr.g.fset.Position(vs.Pos())
+	tr.fn.addAbstract(gtAbstract{name: pn, typ: "bstr -> bstr -> bstr", key: fmt.Sprintf("2:%s:%09d", filepath.Base(pos.Filename), pos.Offset)})
 	return ex{binds: binds, code: "(" + pn + " " + args[0].code + " " + args[1].code + ")", typ: tString}, true
 }
 
@@ -1758,6 +1761,28 @@ func gtExprTextLit(e ast.Expr) string {
 // ifaceField: e is n.F with n a struct parameter (read only) and F a field whose type is an interface type of /repo.
 // Returns the stem m_n_F of the parameters that stand for it and the interface's declaration.
 func (tr *gtTr) ifaceField(e ast.Expr, env *venv) (stem string, p *gpkg, it *ast.InterfaceType, tname string, ok bool) {
+	defer func() {
+		if ok {
+			tr.ifaceKey = ""
+			sel := unparen(e).(*ast.SelectorExpr)
+			id := unparen(sel.X).(*ast.Ident)
+			pi := 999
+			for i, prm := range tr.fn.params {
+				if prm.goName == id.Name {
+					pi = i
+				}
+			}
+			fi := 999
+			if v := env.lookup(id.Name); v != nil {
+				for i, fl := range v.typ.fields {
+					if fl.name == sel.Sel.Name {
+						fi = i
+					}
+				}
+			}
+			tr.ifaceKey = fmt.Sprintf("1:%03d:%03d", pi, fi)
+		}
+	}()
 	sel, isSel := unparen(e).(*ast.SelectorExpr)
 	if !isSel {
 		return
@@ -1792,7 +1817,7 @@ func (tr *gtTr) ifaceFieldNil(e ast.Expr, env *venv) (string, bool) {
 	if !ok {
 		return "", false
 	}
-	tr.fn.addAbstract(gtAbstract{name: stem + "_nil", typ: "bool"})
+	tr.fn.addAbstract(gtAbstract{name: stem + "_nil", typ: "bool", key: tr.ifaceKey + ":0"})
 	return stem + "_nil", true
 }
 
@@ -1845,8 +1870,9 @@ func (tr *gtTr) ifaceFieldMethod(c *ast.CallExpr, env *venv) (ex, bool) {
 	if !found {
 		return ex{}, false
 	}
-	tr.fn.addAbstract(gtAbstract{name: stem + "_nil", typ: "bool"})
-	tr.fn.addAbstract(gtAbstract{name: stem + "_" + sel.Sel.Name, typ: rt.coq()})
+	key := tr.ifaceKey
+	tr.fn.addAbstract(gtAbstract{name: stem + "_nil", typ: "bool", key: key + ":0"})
+	tr.fn.addAbstract(gtAbstract{name: stem + "_" + sel.Sel.Name, typ: rt.coq(), key: key + ":1" + sel.Sel.Name})
 	o := tr.fresh()
 	return ex{binds: []gbind{{o, fmt.Sprintf("if %s_nil then None else Some %s_%s", stem, stem, sel.Sel.Name)}}, code: o, typ: rt}, true
 }
